@@ -1,29 +1,120 @@
 /-
 C07 — Date construction accepts exactly the dates that exist, with the right error.
+
+"The date (y, m, d) exists in calendar c" means: some day number `j` has that label, i.e.
+`c.atJdn? j = some date` with that year, month and day — and `at_jdn` is the
+specification's labelling (C02, C03).  `WF c`: proleptic, or returned by
+`Calendar::reforming`.
 -/
-import JulianVerif.Lemmas.Proleptic
+import JulianVerif.Lemmas.ShapedInst
+set_option linter.unusedSimpArgs false
 namespace JV.C07
 open JV Spec
 
-/-- proleptic calendars, all `i32` years and every day value -/
-theorem atYmd_proleptic (ρ : Rule) (y : Int) (hy : InI32 y) (m : Month) (d : Int) :
-    (ruleCal ρ).atYmd y m d =
-      if 1 ≤ d ∧ d ≤ monthLen (leap ρ y) m then
-        (if InI32 (jdnOf ρ y m d)
-          then .ok ⟨ruleCal ρ, y, daysBefore (leap ρ y) m + d, m, d, d, jdnOf ρ y m d⟩
-          else .error .arithmetic)
-      else .error (.dayOutOfRange y m d 1 (monthLen (leap ρ y) m)) :=
-  ruleCal_atYmd ρ y hy m d
+/-- **an existing date is constructed exactly when its day number fits in 32 bits, and is
+then the canonical date of that day; beyond the day-number range it is an arithmetic
+error** -/
+theorem atYmd_existing (c : Calendar) (hc : WF c) (j : Int) (d : Date) (h : c.atJdn? j = some d)
+    (hy : InI32 d.year) :
+    c.atYmd d.year d.month d.day = (if InI32 j then .ok d else .error .arithmetic)
+    ∧ c.atOrdinalDate d.year d.ordinal = (if InI32 j then .ok d else .error .arithmetic) := by
+  obtain ⟨A⟩ := hc.accepting
+  obtain ⟨hcal, hjd, hp⟩ := atJdn?_parts c j d h
+  obtain ⟨hdo, hyo, _, _⟩ := Calendar.ordinal2ymddo_inv c d.year d.ordinal d.month d.day d.dayOrdinal
+    (A.valid d.year) (A.lenSum d.year) hp
+  have hg := A.getJdn_atJdn j d h hy
+  have heta : d = ⟨c, d.year, d.ordinal, d.month, d.day, d.dayOrdinal, j⟩ := by
+    cases d; simp only at *; subst hcal hjd; rfl
+  by_cases hin : InI32 j
+  · rw [if_pos hin] at hg
+    rw [if_pos hin]
+    constructor
+    · simp only [Calendar.atYmd, hdo, hyo, hg]; rw [← heta]
+    · simp only [Calendar.atOrdinalDate, hp, hg]; rw [← heta]
+  · rw [if_neg hin] at hg
+    rw [if_neg hin]
+    constructor
+    · simp only [Calendar.atYmd, hdo, hyo, hg]
+    · simp only [Calendar.atOrdinalDate, hp, hg]
 
-/-- an ordinal beyond the year is reported with the year's true length -/
-theorem atOrdinalDate_proleptic (ρ : Rule) (y : Int) (hy : InI32 y) (o : Int) :
-    (1 ≤ o ∧ o ≤ yearLen ρ y →
-      ∃ m d, daysBefore (leap ρ y) m + d = o ∧ 1 ≤ d ∧ d ≤ monthLen (leap ρ y) m
-        ∧ (ruleCal ρ).atOrdinalDate y o =
-            if InI32 (yearStart ρ y + o - 1)
-            then .ok ⟨ruleCal ρ, y, o, m, d, d, yearStart ρ y + o - 1⟩ else .error .arithmetic)
-    ∧ (¬(1 ≤ o ∧ o ≤ yearLen ρ y) →
-        (ruleCal ρ).atOrdinalDate y o = .error (.ordinalOutOfRange y o (yearLen ρ y))) :=
-  ruleCal_atOrdinalDate ρ y hy o
+/-- **construction succeeds only for dates that exist**: a returned date is the canonical
+date of its (32-bit) day number and carries the requested label -/
+theorem atYmd_sound (c : Calendar) (hc : WF c) (y : Int) (hy : InI32 y) (m : Month) (dd : Int)
+    (hd : InU32 dd) (d : Date) (h : c.atYmd y m dd = .ok d) :
+    c.atJdn? d.jdn = some d ∧ InI32 d.jdn ∧ d.year = y ∧ d.month = m ∧ d.day = dd := by
+  obtain ⟨A⟩ := hc.accepting
+  exact A.atYmd_canon y hy m dd hd.1 d h
+
+/-- **a request into a month removed entirely is reported as skipped** -/
+theorem atYmd_month_removed (c : Calendar) (y : Int) (m : Month) (dd : Int)
+    (h : c.monthIShape y m = none) : c.atYmd y m dd = .error (.skippedDate y m dd) := by
+  simp only [Calendar.atYmd, Calendar.getDayOrdinal, h]
+
+/-- **a day that does not exist in a month that still has days**: if the month would
+naturally have it (1 ≤ d ≤ natural length) it is reported as skipped — this takes
+precedence — otherwise as out of range, together with the first and last days that do
+exist -/
+theorem atYmd_missing (c : Calendar) (hc : WF c) (y : Int) (m : Month) (dd : Int) (hd : InU32 dd)
+    (s : IShape) (hs : c.monthIShape y m = some s) (hno : s.contains dd = false) :
+    c.atYmd y m dd =
+      if 1 ≤ dd ∧ dd ≤ s.naturalMax then .error (.skippedDate y m dd)
+      else .error (.dayOutOfRange y m dd s.firstDay s.lastDay) := by
+  obtain ⟨S⟩ := hc.shaped
+  obtain ⟨_, h2, h3⟩ := s.dayOrdinalErr_classify (S.proper y m s hs) y m dd hd.1
+  simp only [Calendar.atYmd, Calendar.getDayOrdinal, hs]
+  by_cases hn : 1 ≤ dd ∧ dd ≤ s.naturalMax
+  · rw [if_pos hn, h2 hno hn.1 hn.2]
+  · rw [if_neg hn, h3 hno hn]
+
+/-- the shape's membership test is existence of the date, and its first / last day are the
+first / last existing days of the month -/
+theorem shape_is_existence (c : Calendar) (hc : WF c) (y : Int) (m : Month) (dd : Int) (hd : InU32 dd) :
+    (∃ j d, c.atJdn? j = some d ∧ d.year = y ∧ d.month = m ∧ d.day = dd)
+      ↔ (∃ s, c.monthIShape y m = some s ∧ s.contains dd = true) := by
+  obtain ⟨S⟩ := hc.shaped
+  exact S.month_days y m dd hd.1
+
+/-- in a reforming calendar the natural span of a month is the ordinary month table under
+the rule in force at the end of that month: Julian if the month precedes the month of the
+first Gregorian date, Gregorian otherwise -/
+theorem natural_span (R : Int) (hR : InI32 R) (c : Calendar) (hc : Calendar.mkReforming R = .ok c)
+    (y : Int) (m : Month) (s : IShape) (hs : c.monthIShape y m = some s) :
+    ∃ rf : Reform, c = rf.cal ∧ s.naturalMax = monthLen (rf.natLp y m) m := by
+  obtain ⟨rf, rfl, _, _⟩ := mk_reform R hR c hc
+  exact ⟨rf, rfl, (rf.shape_proper y m s hs).2⟩
+
+/-- **an ordinal beyond the year is reported with the year's true length** (which is the
+number of dates of the year, C08); within the year construction succeeds or overflows -/
+theorem atOrdinalDate_range (c : Calendar) (y o : Int) :
+    (¬ (1 ≤ o ∧ o ≤ c.yearLength y) →
+        c.atOrdinalDate y o = .error (.ordinalOutOfRange y o (c.yearLength y))) := by
+  intro h
+  simp only [Calendar.atOrdinalDate, Calendar.ordinal2ymddo]
+  have : (decide (o < 1) || decide (o > c.yearLength y)) = true := by simp; omega
+  rw [this]; simp
+
+/-- within the year, the result is the canonical date or an arithmetic error, never another
+error and never a fault -/
+theorem atOrdinalDate_within (c : Calendar) (hc : WF c) (y : Int) (hy : InI32 y) (o : Int)
+    (h1 : 1 ≤ o) (h2 : o ≤ c.yearLength y) :
+    (∃ d, c.atOrdinalDate y o = .ok d ∧ c.atJdn? d.jdn = some d ∧ d.year = y ∧ d.ordinal = o)
+    ∨ c.atOrdinalDate y o = .error .arithmetic := by
+  obtain ⟨A⟩ := hc.accepting
+  have hlive := A.live_of_len y (by omega)
+  obtain ⟨d2, hd2, hy2, ho2⟩ := A.toYearTiling.atJdn_of_block y (A.F y + o - 1) hlive (by omega) (by omega)
+  have e : d2.ordinal = o := by omega
+  have := (atYmd_existing c hc _ d2 hd2 (by rw [hy2]; exact hy)).2
+  rw [hy2, e] at this
+  by_cases hin : InI32 (A.F y + o - 1)
+  · rw [if_pos hin] at this
+    exact Or.inl ⟨d2, this, by
+      obtain ⟨_, hj, _⟩ := atJdn?_parts c _ d2 hd2
+      rw [hj]; exact hd2, hy2, e⟩
+  · rw [if_neg hin] at this; exact Or.inr this
+
+/-- the example that used to be misclassified (defect D3): February 29, 1701 in the calendar
+reforming on day 2342397 does not exist and lies outside February's natural span -/
+example : ∃ c, Calendar.mkReforming 2342397 = .ok c
+    ∧ c.atYmd 1701 .february 29 = .error (.dayOutOfRange 1701 .february 29 1 17) := ⟨_, rfl, rfl⟩
 
 end JV.C07
